@@ -474,9 +474,17 @@ def r01_4(ctx):
     (ctx.ok(construct, fin.loc(vis[0])) if ok else ctx.bad(construct, "`visible if` of an enclosing menu is not ANDed into the inherited visibility", fin.loc()))
     calls = [n for n in ast.walk(fin.node) if isinstance(n, ast.Call) and ast.unparse(n.func) == "self._propagate_deps"]
     construct = "Kconfig._finalize_node/propagates before finalizing children"
-    rec = [n for n in ast.walk(fin.node) if isinstance(n, ast.Call) and ast.unparse(n.func) == "self._finalize_node"
-           and ast.unparse(n.args[0]) == "cur"]
-    ok = bool(calls) and bool(rec) and any(calls[0].lineno < r.lineno for r in rec) and ast.unparse(calls[0].args[1]) == "visible_if"
+    # the children loop: a cursor that starts at `node.list` and is handed to the recursive call
+    starts = [n for n in ast.walk(fin.node) if isinstance(n, ast.Assign) and len(n.targets) == 1 and isinstance(n.targets[0], ast.Name)
+              and ast.unparse(n.value) == "node.list"]
+    rec = []
+    for st_ in starts:
+        cur_ = st_.targets[0].id
+        rec += [(st_, n) for n in ast.walk(fin.node) if isinstance(n, ast.Call) and ast.unparse(n.func) == "self._finalize_node"
+                and n.args and ast.unparse(n.args[0]) == cur_ and n.lineno > st_.lineno]
+    marks = {id(repo.enclosing_stmt(c)) for c in calls}
+    flp = Flow(fin.node, events=lambda st__: ["propagated"] if id(st__) in marks else [], track_guards=False).run()
+    ok = bool(calls) and bool(rec) and all("propagated" in (flp.events_at(st_) or set()) for st_, _ in rec) and ast.unparse(calls[0].args[1]) == "visible_if"
     (ctx.ok(construct, fin.loc(calls[0])) if ok else ctx.bad(construct, "_propagate_deps(node, visible_if) no longer precedes the recursive finalisation", fin.loc()))
 
 
